@@ -38,7 +38,7 @@ type Converter struct {
 // ParseDocs parses the docs for the given pattern.
 func ParseDocs(c ParseDocsConfig) ([]config.RawConverter, error) {
 	loadCfg := &packages.Config{
-		Mode: packages.NeedName | packages.NeedTypes | packages.NeedTypesInfo | packages.NeedSyntax,
+		Mode: packages.NeedName | packages.NeedFiles | packages.NeedTypes | packages.NeedTypesInfo | packages.NeedSyntax,
 		Dir:  c.WorkingDir,
 	}
 	if c.BuildTags != "" {
@@ -75,10 +75,14 @@ func ParseDocs(c ParseDocsConfig) ([]config.RawConverter, error) {
 Goverter cannot generate converters when there are compile errors because it
 requires the type information from the compiled sources.`, pkg.PkgPath, pkg.Errors[0])
 		}
+		files := &packageFiles{FileSet: pkg.Fset, sources: map[string]struct{}{}}
+		for _, name := range pkg.GoFiles {
+			files.sources[name] = struct{}{}
+		}
 		for _, file := range pkg.Syntax {
 			for _, decl := range file.Decls {
 				if genDecl, ok := decl.(*ast.GenDecl); ok {
-					converters, err := parseGenDecl(pkg.Fset, pkg.Types, genDecl)
+					converters, err := parseGenDecl(files, pkg.Types, genDecl)
 					if err != nil {
 						location := pkg.Fset.Position(genDecl.Pos()).String()
 						return rawConverters, fmt.Errorf("%s: %s", location, err)
@@ -91,7 +95,25 @@ requires the type information from the compiled sources.`, pkg.PkgPath, pkg.Erro
 	return rawConverters, nil
 }
 
-func parseFunctions(fset *token.FileSet, pkg *types.Package, decl *ast.GenDecl, comments string) ([]config.RawConverter, error) {
+// packageFiles is the file set of a package together with the names of its Go source files.
+type packageFiles struct {
+	*token.FileSet
+	sources map[string]struct{}
+}
+
+// declaringFile returns the file that holds the declaration at pos. A //line directive in a
+// source file of the package (a file produced from a template) does not move it. The go
+// command may hand out preprocessed copies instead of the source files (cgo, -cover); there
+// the //line directives are what names the source file.
+func (f *packageFiles) declaringFile(pos token.Pos) string {
+	physical := f.PositionFor(pos, false).Filename
+	if _, ok := f.sources[physical]; ok {
+		return physical
+	}
+	return f.Position(pos).Filename
+}
+
+func parseFunctions(fset *packageFiles, pkg *types.Package, decl *ast.GenDecl, comments string) ([]config.RawConverter, error) {
 	if decl.Tok != token.VAR {
 		return nil, fmt.Errorf("%s must be defined on %q-block but was %q", converterMarker, token.VAR, decl.Tok.String())
 	}
@@ -115,8 +137,7 @@ func parseFunctions(fset *token.FileSet, pkg *types.Package, decl *ast.GenDecl, 
 	}
 
 	converter := config.RawConverter{
-		// the file that holds the declaration, not the one a //line directive names
-		FileName:    fset.PositionFor(decl.Pos(), false).Filename,
+		FileName:    fset.declaringFile(decl.Pos()),
 		Converter:   converterLines,
 		Methods:     result,
 		PackageName: pkg.Name(),
@@ -125,7 +146,7 @@ func parseFunctions(fset *token.FileSet, pkg *types.Package, decl *ast.GenDecl, 
 	return []config.RawConverter{converter}, nil
 }
 
-func parseGenDecl(fset *token.FileSet, pkg *types.Package, decl *ast.GenDecl) ([]config.RawConverter, error) {
+func parseGenDecl(fset *packageFiles, pkg *types.Package, decl *ast.GenDecl) ([]config.RawConverter, error) {
 	declDocs := parse.CommentToString(decl.Doc)
 
 	if strings.Contains(declDocs, variablesMarker) {
@@ -166,7 +187,7 @@ func parseGenDecl(fset *token.FileSet, pkg *types.Package, decl *ast.GenDecl) ([
 	return converters, nil
 }
 
-func parseInterface(fset *token.FileSet, pkg *types.Package, typeSpec *ast.TypeSpec, declDocs string) (config.RawConverter, error) {
+func parseInterface(fset *packageFiles, pkg *types.Package, typeSpec *ast.TypeSpec, declDocs string) (config.RawConverter, error) {
 	astInterface, ok := typeSpec.Type.(*ast.InterfaceType)
 	if !ok {
 		return config.RawConverter{}, fmt.Errorf("%s may only be applied to type interface declarations ", converterMarker)
@@ -175,18 +196,17 @@ func parseInterface(fset *token.FileSet, pkg *types.Package, typeSpec *ast.TypeS
 
 	location := fset.Position(typeSpec.Pos())
 	converterLines := parseRawLines(fileWithLine(location), declDocs)
-	methods, err := parseInterfaceMethods(fset, astInterface)
+	methods, err := parseInterfaceMethods(fset.FileSet, astInterface)
 	if err != nil {
 		return config.RawConverter{}, fmt.Errorf("type %s: %s", typeName, err)
 	}
 	converter := config.RawConverter{
 		InterfaceName: typeName,
-		// the file that holds the declaration, not the one a //line directive names
-		FileName:    fset.PositionFor(typeSpec.Pos(), false).Filename,
-		Converter:   converterLines,
-		Methods:     methods,
-		PackageName: pkg.Name(),
-		PackagePath: pkg.Path(),
+		FileName:      fset.declaringFile(typeSpec.Pos()),
+		Converter:     converterLines,
+		Methods:       methods,
+		PackageName:   pkg.Name(),
+		PackagePath:   pkg.Path(),
 	}
 	return converter, nil
 }
